@@ -14,6 +14,7 @@ package main
 import (
 	"encoding/json"
 	"fmt"
+	"hash/fnv"
 	"os"
 	"path/filepath"
 	"runtime"
@@ -743,6 +744,12 @@ func main() {
 	pats := []string{}
 	for _, p := range dirtyPatterns {
 		pats = append(pats, fmt.Sprintf("%#x", p))
+	}
+	{ // one line that identifies every measured count of this run (for run-to-run comparison)
+		dj, _ := json.Marshal([]any{a.calls, a.nontriv, a.outcomes, a.perFn, a.perSlice, a.memChanged, a.lowfree, a.rebuilds, len(crashed), len(singles), a.crashCases, a.dirtyCalls, a.dirtySame, xCompared, xDiffer, len(a.fxStr)})
+		h := fnv.New64a()
+		h.Write(dj)
+		fmt.Printf("C15 counts-digest=%016x\n", h.Sum64())
 	}
 	run.Finish(fw.Coverage{
 		Evaluations: a.calls, DistinctNontriv: a.nontriv,
